@@ -9,6 +9,7 @@ import H4.Driver.VGroup
 import H4.Driver.Annot
 import H4.Driver.Il
 import H4.Driver.Vs
+import H4.Driver.MCache
 open H4.Driver
 
 /-- state of every stateful engine; reset at each `CASE` line -/
@@ -20,6 +21,7 @@ structure World where
   vg : H4.VGroup.File := {}
   an : H4.Annot.AnState := {}
   vs : VsState := {}
+  mcache : H4.MCache.State := mcacheInit
 
 def stepWorld (w : World) (engine : String) (args : List String) : World × String :=
   match engine with
@@ -32,6 +34,7 @@ def stepWorld (w : World) (engine : String) (args : List String) : World × Stri
   | "vg" => let (v, o) := stepVg w.vg args; ({ w with vg := v }, o)
   | "il" => (w, stepIl args)
   | "vs" => let (s, out) := stepVs w.vs args; ({ w with vs := s }, out)
+  | "mcache" => let (m, out) := stepMcache w.mcache args; ({ w with mcache := m }, out)
   | "hp" => let (h, r) := stepHp w.hp args; ({ w with hp := h }, r)
   | _ => (w, "bad-engine")
 
